@@ -272,13 +272,13 @@ func specInScope(stack []scope, n int, s scope) bool {
 //@   ensures[C07] only-at-top-level: !ctx.global() ==> err != nil
 //
 //@ func (*Parser).evaluateSwitch
-//@   loop 1 invariant[C01] one-branch-per-case: (useMock ==> calls(evaluateExpression) == ite(old(p.peekAt(1)).tokenType == lexer.OPENING_CURLY_BRACKET, 0, 1) && len(fakeIf.elifBranches) == 0) && (!useMock ==> 1 + len(fakeIf.elifBranches) == calls(evaluateExpression) - ite(old(p.peekAt(1)).tokenType == lexer.OPENING_CURLY_BRACKET, 0, 1))
+//@   loop @"CLOSING_CURLY_BRACKET" invariant[C01] one-branch-per-case: (useMock ==> calls(evaluateExpression) == ite(old(p.peekAt(1)).tokenType == lexer.OPENING_CURLY_BRACKET, 0, 1) && len(fakeIf.elifBranches) == 0) && (!useMock ==> 1 + len(fakeIf.elifBranches) == calls(evaluateExpression) - ite(old(p.peekAt(1)).tokenType == lexer.OPENING_CURLY_BRACKET, 0, 1))
 //@   ensures[C01] one-branch-per-case-in-order: err == nil && calls(evaluateExpression) > ite(old(p.peekAt(1)).tokenType == lexer.OPENING_CURLY_BRACKET, 0, 1) ==> isType(result0, "parser.If") && 1 + len(asType(result0, "parser.If").elifBranches) == calls(evaluateExpression) - ite(old(p.peekAt(1)).tokenType == lexer.OPENING_CURLY_BRACKET, 0, 1)
 //
 //@ func (*Parser).evaluateImports
-//@   loop 4 invariant[C09] merge-keeps-imported-edges: has(p.usedFuncs, funcName) && forall(k, 0, rangeindex + 1, inList(get(p.usedFuncs, funcName), usedFuncs[k])) && samePrefix(foundUsedFuncs, get(p.usedFuncs, funcName))
-//@   loop 4 exit[C09] every-imported-edge-of-this-caller-merged: forall(k, 0, len(usedFuncs), inList(get(p.usedFuncs, funcName), usedFuncs[k]))
-//@   loop 5 invariant[C09] imported-top-level-code-kept: len(statements) >= specCountOther(statementsTemp, rangeindex + 1)
+//@   loop @"range usedFuncs" invariant[C09] merge-keeps-imported-edges: has(p.usedFuncs, funcName) && forall(k, 0, rangeindex + 1, inList(get(p.usedFuncs, funcName), usedFuncs[k])) && samePrefix(foundUsedFuncs, get(p.usedFuncs, funcName))
+//@   loop @"range usedFuncs" exit[C09] every-imported-edge-of-this-caller-merged: forall(k, 0, len(usedFuncs), inList(get(p.usedFuncs, funcName), usedFuncs[k]))
+//@   loop @"range statementsTemp" invariant[C09] imported-top-level-code-kept: len(statements) >= specCountOther(statementsTemp, rangeindex + 1)
 //
 // A parser always has a non-negative token index and a call-graph map; a context that is handed
 // to a parsing function has its three maps and is inside at least one scope.
